@@ -174,11 +174,17 @@ def empty_K():
     return K
 
 
+class Diverged(Exception):
+    """the real object no longer has an atom the model's next operation names: after an operation whose atom order the
+    property leaves open (replicate), an index-based operation (pop) removes different atoms in model and code.  Every
+    step up to here was judged on its own; the rest of the behaviour is not executed."""
+
+
 def key_index(atoms, R, key):
     """index of the atom whose (charge code, lattice position) is `key` = [id, [x,y,z]]; by content, not by bookkeeping"""
     ids = np.rint(np.array(atoms.charges) * QUNIT).astype(int)
     ip, _ = R.unvec(atoms.positions)
     hits = [i for i in range(len(ids)) if ids[i] == key[0] and list(ip[i]) == list(key[1])]
     if len(hits) != 1:
-        raise KeyError("atom key %r found %d times" % (key, len(hits)))
+        raise Diverged("atom key %r found %d times" % (key, len(hits)))
     return hits[0]
